@@ -46,6 +46,15 @@ def reconfig(tier, seed):
         # a third of the histories, chosen by content and rotating with the seed (the thorough tier replays all of them)
         from .common import digest
         recs = [x for x in recs if int(digest(x), 16) % 3 == seed % 3]
+    # histories of 3 calls with ONE rejected call among them (PopReconfig!RC_Bad): a rejected call has no effect
+    rb = tlc.run('MC_PopReconfig', 'PopReconfig_bad.cfg')
+    bad = [x for x in rb.records if any(h[0] == 'bad' for h in x['hist'])]
+    runs.append(dict(cfg='PopReconfig_bad.cfg', mode='exhaustive, histories of 3 calls with one rejected call', histories=len(bad),
+                     **_summ(rb)))
+    if tier == 'quick':
+        from .common import digest
+        bad = [x for x in bad if int(digest(x), 16) % 3 == seed % 3]
+    recs += bad
     if tier == 'thorough':
         for k in range(4):
             w = tlc.simulate('MC_PopReconfig', 'PopReconfig_long.cfg', 400, 60, seed=seed * 10 + k)
